@@ -1,4 +1,4 @@
-(* GENERATED on every run by tools/tables.py from /repo/src/lang/token.rs, src/lang/parse.rs and src/mach/function.rs.
+(* GENERATED on every run by tools/tables.py from /repo/src/lang/{token,parse,error,mod}.rs and src/mach/{function,mod,stack}.rs.
    Do not edit: Proofs/SourceTables.v proves that the model's tables are these. *)
 From Coq Require Import String NArith List.
 Import ListNotations.
@@ -108,3 +108,40 @@ Definition src_arity : list (string * (N * N)) :=
    ("TAN", (1, 1));
    ("TIME$", (0, 0));
    ("VAL", (1, 1))]%N.
+
+Definition src_E_Break : N := 0%N.
+Definition src_E_NextWithoutFor : N := 1%N.
+Definition src_E_SyntaxError : N := 2%N.
+Definition src_E_ReturnWithoutGosub : N := 3%N.
+Definition src_E_OutOfData : N := 4%N.
+Definition src_E_IllegalFunctionCall : N := 5%N.
+Definition src_E_Overflow : N := 6%N.
+Definition src_E_OutOfMemory : N := 7%N.
+Definition src_E_UndefinedLine : N := 8%N.
+Definition src_E_SubscriptOutOfRange : N := 9%N.
+Definition src_E_RedimensionedArray : N := 10%N.
+Definition src_E_DivisionByZero : N := 11%N.
+Definition src_E_IllegalDirect : N := 12%N.
+Definition src_E_TypeMismatch : N := 13%N.
+Definition src_E_OutOfStringSpace : N := 14%N.
+Definition src_E_StringTooLong : N := 15%N.
+Definition src_E_CantContinue : N := 17%N.
+Definition src_E_UndefinedUserFunction : N := 18%N.
+Definition src_E_RedoFromStart : N := 21%N.
+Definition src_E_LineBufferOverflow : N := 23%N.
+Definition src_E_ForWithoutNext : N := 26%N.
+Definition src_E_WhileWithoutWend : N := 29%N.
+Definition src_E_WendWithoutWhile : N := 30%N.
+Definition src_E_InternalError : N := 51%N.
+Definition src_E_FileNotFound : N := 53%N.
+Definition src_E_FileAlreadyExists : N := 58%N.
+Definition src_E_BadFileName : N := 64%N.
+Definition src_E_DirectStatementInFile : N := 66%N.
+
+Definition src_max_line_number : N := 65529%N.
+
+Definition src_max_line_len : N := 1024%N.
+
+Definition src_max_pool : N := 65535%N.   (* Stack::max_len = u16::max_value() *)
+
+Definition src_full_headroom : N := 32%N.
